@@ -163,7 +163,7 @@ KE3: runK := FALSE; stopK := FALSE; doneK := TRUE; goto K0;
 }
 
 fair process (Client = "C")
-variables polls = 0, mslice = 0;
+variables polls = 0, mslice = 0, monitoring = FALSE;
 {
 C0: while (epoch < Epochs) {
       \* acquire_start: sink, filter, source
@@ -172,9 +172,11 @@ C0: while (epoch < Epochs) {
       storRunning := TRUE; sacc := TRUE; stopK := FALSE; runK := TRUE; doneK := FALSE;
       sreg := TRUE; sc := Len(sq);   \* (late registration, the old code's free-running writer, is not modelled)
 C1:   stopF := FALSE; runF := TRUE; doneF := FALSE;
-C2:   camRunning := TRUE; stopS := FALSE; runS := TRUE; doneS := FALSE; phase := "running"; polls := 0;
+C2:   camRunning := TRUE; stopS := FALSE; runS := TRUE; doneS := FALSE;      \* video_source_start: the source thread exists
+C2r:  phase := "running"; polls := 0;                                        \* acquire_start returns
+      with (m \in {TRUE, FALSE}) { monitoring := WithMonitor /\ m; };       \* this client monitors the acquisition, or not
 C3:   \* a monitoring client polls until the acquisition is over (client contract), or does not monitor at all
-      while (WithMonitor /\ (runS \/ runF \/ runK \/ (mreg /\ mc < Len(sq)))) {
+      while (monitoring /\ (runS \/ runF \/ runK \/ (mreg /\ mc < Len(sq)))) {
         if (~mreg) { mreg := TRUE; mc := 0; };
 C3m:    with (n \in (IF Len(sq) - mc > 0 THEN 1..(Len(sq) - mc) ELSE {0})) { mslice := n; };   \* map: all or up to the wrap
         monSeen := monSeen \o SubSeq(sq, mc + 1, mc + mslice);
@@ -184,8 +186,8 @@ C4:   either { skip; }
       or { await WithAbort;                              \* acquire_abort
            aborted := TRUE; stopS := TRUE;
 C4a:       sacc := FALSE; };
-C5:   phase := "stopping";
-      await doneS;                                       \* join source
+C5:   phase := "stopping";                               \* acquire_stop is called
+C5j:  await doneS;                                       \* join source
 C6:   await doneF;                                       \* join filter
 C7:   await doneK;                                       \* join sink
 C8:   sacc := TRUE;
@@ -223,12 +225,13 @@ StorOk == \A i \in 1..Len(stor) :
 Complete == IF AVG <= 1 THEN Len(stor) = N ELSE Len(stor) >= N \div AVG
 Clean == ~aborted /\ ~camFailed /\ ~storFailed
 
-VARIABLES iframe, got, batch, slice, polls, mslice
+VARIABLES iframe, got, batch, slice, polls, mslice, monitoring
 
 vars == << pc, epoch, phase, aborted, fq, facc, sq, sacc, sreg, sc, mreg, mc, 
            stopS, stopF, stopK, runS, runF, runK, doneS, doneF, doneK, 
            camRunning, storRunning, camFailed, storFailed, cam, nappend, stor, 
-           monSeen, bad, acc, iframe, got, batch, slice, polls, mslice >>
+           monSeen, bad, acc, iframe, got, batch, slice, polls, mslice, 
+           monitoring >>
 
 ProcSet == {"S"} \cup {"F"} \cup {"K"} \cup {"C"}
 
@@ -273,6 +276,7 @@ Init == (* Global variables *)
         (* Process Client *)
         /\ polls = 0
         /\ mslice = 0
+        /\ monitoring = FALSE
         /\ pc = [self \in ProcSet |-> CASE self = "S" -> "S0"
                                         [] self = "F" -> "F0"
                                         [] self = "K" -> "K0"
@@ -286,7 +290,7 @@ S0 == /\ pc["S"] = "S0"
                       mreg, mc, stopS, stopF, stopK, runS, runF, runK, doneS, 
                       doneF, doneK, camRunning, storRunning, camFailed, 
                       storFailed, cam, nappend, stor, monSeen, bad, acc, got, 
-                      batch, slice, polls, mslice >>
+                      batch, slice, polls, mslice, monitoring >>
 
 S1 == /\ pc["S"] = "S1"
       /\ IF ~stopS /\ iframe < N
@@ -296,7 +300,7 @@ S1 == /\ pc["S"] = "S1"
                       mreg, mc, stopS, stopF, stopK, runS, runF, runK, doneS, 
                       doneF, doneK, camRunning, storRunning, camFailed, 
                       storFailed, cam, nappend, stor, monSeen, bad, acc, 
-                      iframe, got, batch, slice, polls, mslice >>
+                      iframe, got, batch, slice, polls, mslice, monitoring >>
 
 S2 == /\ pc["S"] = "S2"
       /\ IF AVG > 1
@@ -311,7 +315,7 @@ S2 == /\ pc["S"] = "S2"
                       mreg, mc, stopS, stopF, stopK, runS, runF, runK, doneS, 
                       doneF, doneK, camRunning, storRunning, camFailed, 
                       storFailed, cam, nappend, stor, monSeen, bad, acc, 
-                      iframe, batch, slice, polls, mslice >>
+                      iframe, batch, slice, polls, mslice, monitoring >>
 
 S3 == /\ pc["S"] = "S3"
       /\ IF got
@@ -329,7 +333,7 @@ S3 == /\ pc["S"] = "S3"
                       mreg, mc, stopS, stopF, stopK, runS, runF, runK, doneS, 
                       doneF, doneK, storRunning, storFailed, nappend, stor, 
                       monSeen, bad, acc, iframe, got, batch, slice, polls, 
-                      mslice >>
+                      mslice, monitoring >>
 
 S4 == /\ pc["S"] = "S4"
       /\ IF AVG > 1
@@ -346,7 +350,7 @@ S4 == /\ pc["S"] = "S4"
                       stopS, stopF, stopK, runS, runF, runK, doneS, doneF, 
                       doneK, camRunning, storRunning, camFailed, storFailed, 
                       cam, nappend, stor, monSeen, bad, acc, got, batch, slice, 
-                      polls, mslice >>
+                      polls, mslice, monitoring >>
 
 S5 == /\ pc["S"] = "S5"
       /\ stopF' = TRUE
@@ -355,7 +359,7 @@ S5 == /\ pc["S"] = "S5"
                       mreg, mc, stopS, stopK, runS, runF, runK, doneS, doneF, 
                       doneK, camRunning, storRunning, camFailed, storFailed, 
                       cam, nappend, stor, monSeen, bad, acc, iframe, got, 
-                      batch, slice, polls, mslice >>
+                      batch, slice, polls, mslice, monitoring >>
 
 S5j == /\ pc["S"] = "S5j"
        /\ IF Repaired
@@ -366,7 +370,7 @@ S5j == /\ pc["S"] = "S5j"
                        mreg, mc, stopS, stopF, stopK, runS, runF, runK, doneS, 
                        doneF, doneK, camRunning, storRunning, camFailed, 
                        storFailed, cam, nappend, stor, monSeen, bad, acc, 
-                       iframe, got, batch, slice, polls, mslice >>
+                       iframe, got, batch, slice, polls, mslice, monitoring >>
 
 S6 == /\ pc["S"] = "S6"
       /\ stopK' = TRUE
@@ -375,7 +379,7 @@ S6 == /\ pc["S"] = "S6"
                       mreg, mc, stopS, stopF, runS, runF, runK, doneS, doneF, 
                       doneK, camRunning, storRunning, camFailed, storFailed, 
                       cam, nappend, stor, monSeen, bad, acc, iframe, got, 
-                      batch, slice, polls, mslice >>
+                      batch, slice, polls, mslice, monitoring >>
 
 S7 == /\ pc["S"] = "S7"
       /\ camRunning' = FALSE
@@ -384,7 +388,7 @@ S7 == /\ pc["S"] = "S7"
                       mreg, mc, stopS, stopF, stopK, runS, runF, runK, doneS, 
                       doneF, doneK, storRunning, camFailed, storFailed, cam, 
                       nappend, stor, monSeen, bad, acc, iframe, got, batch, 
-                      slice, polls, mslice >>
+                      slice, polls, mslice, monitoring >>
 
 S8 == /\ pc["S"] = "S8"
       /\ stopS' = FALSE
@@ -395,7 +399,7 @@ S8 == /\ pc["S"] = "S8"
                       mreg, mc, stopF, stopK, runF, runK, doneF, doneK, 
                       camRunning, storRunning, camFailed, storFailed, cam, 
                       nappend, stor, monSeen, bad, acc, iframe, got, batch, 
-                      slice, polls, mslice >>
+                      slice, polls, mslice, monitoring >>
 
 Source == S0 \/ S1 \/ S2 \/ S3 \/ S4 \/ S5 \/ S5j \/ S6 \/ S7 \/ S8
 
@@ -406,7 +410,7 @@ F0 == /\ pc["F"] = "F0"
                       mreg, mc, stopS, stopF, stopK, runS, runF, runK, doneS, 
                       doneF, doneK, camRunning, storRunning, camFailed, 
                       storFailed, cam, nappend, stor, monSeen, bad, acc, 
-                      iframe, got, batch, slice, polls, mslice >>
+                      iframe, got, batch, slice, polls, mslice, monitoring >>
 
 F1 == /\ pc["F"] = "F1"
       /\ IF ~stopF
@@ -416,7 +420,7 @@ F1 == /\ pc["F"] = "F1"
                       mreg, mc, stopS, stopF, stopK, runS, runF, runK, doneS, 
                       doneF, doneK, camRunning, storRunning, camFailed, 
                       storFailed, cam, nappend, stor, monSeen, bad, acc, 
-                      iframe, got, batch, slice, polls, mslice >>
+                      iframe, got, batch, slice, polls, mslice, monitoring >>
 
 F2 == /\ pc["F"] = "F2"
       /\ batch' = Len(fq)
@@ -425,7 +429,7 @@ F2 == /\ pc["F"] = "F2"
                       mreg, mc, stopS, stopF, stopK, runS, runF, runK, doneS, 
                       doneF, doneK, camRunning, storRunning, camFailed, 
                       storFailed, cam, nappend, stor, monSeen, bad, acc, 
-                      iframe, got, slice, polls, mslice >>
+                      iframe, got, slice, polls, mslice, monitoring >>
 
 F3 == /\ pc["F"] = "F3"
       /\ IF batch > 0
@@ -448,7 +452,7 @@ F3 == /\ pc["F"] = "F3"
                       mc, stopS, stopF, stopK, runS, runF, runK, doneS, doneF, 
                       doneK, camRunning, storRunning, camFailed, storFailed, 
                       cam, nappend, stor, monSeen, bad, iframe, got, slice, 
-                      polls, mslice >>
+                      polls, mslice, monitoring >>
 
 F4 == /\ pc["F"] = "F4"
       /\ IF acc # <<>> /\ acc[3] >= AVG
@@ -464,7 +468,7 @@ F4 == /\ pc["F"] = "F4"
                       mc, stopS, stopF, stopK, runS, runF, runK, doneS, doneF, 
                       doneK, camRunning, storRunning, camFailed, storFailed, 
                       cam, nappend, stor, monSeen, bad, iframe, got, batch, 
-                      slice, polls, mslice >>
+                      slice, polls, mslice, monitoring >>
 
 F5 == /\ pc["F"] = "F5"
       /\ TRUE
@@ -473,7 +477,7 @@ F5 == /\ pc["F"] = "F5"
                       mreg, mc, stopS, stopF, stopK, runS, runF, runK, doneS, 
                       doneF, doneK, camRunning, storRunning, camFailed, 
                       storFailed, cam, nappend, stor, monSeen, bad, acc, 
-                      iframe, got, batch, slice, polls, mslice >>
+                      iframe, got, batch, slice, polls, mslice, monitoring >>
 
 FF == /\ pc["F"] = "FF"
       /\ batch' = Len(fq)
@@ -482,7 +486,7 @@ FF == /\ pc["F"] = "FF"
                       mreg, mc, stopS, stopF, stopK, runS, runF, runK, doneS, 
                       doneF, doneK, camRunning, storRunning, camFailed, 
                       storFailed, cam, nappend, stor, monSeen, bad, acc, 
-                      iframe, got, slice, polls, mslice >>
+                      iframe, got, slice, polls, mslice, monitoring >>
 
 FG == /\ pc["F"] = "FG"
       /\ IF batch > 0
@@ -505,7 +509,7 @@ FG == /\ pc["F"] = "FG"
                       mc, stopS, stopF, stopK, runS, runF, runK, doneS, doneF, 
                       doneK, camRunning, storRunning, camFailed, storFailed, 
                       cam, nappend, stor, monSeen, bad, iframe, got, slice, 
-                      polls, mslice >>
+                      polls, mslice, monitoring >>
 
 FH == /\ pc["F"] = "FH"
       /\ IF acc # <<>> /\ acc[3] >= AVG
@@ -521,7 +525,7 @@ FH == /\ pc["F"] = "FH"
                       mc, stopS, stopF, stopK, runS, runF, runK, doneS, doneF, 
                       doneK, camRunning, storRunning, camFailed, storFailed, 
                       cam, nappend, stor, monSeen, bad, iframe, got, batch, 
-                      slice, polls, mslice >>
+                      slice, polls, mslice, monitoring >>
 
 FI == /\ pc["F"] = "FI"
       /\ IF Repaired /\ Len(fq) > 0
@@ -531,7 +535,7 @@ FI == /\ pc["F"] = "FI"
                       mreg, mc, stopS, stopF, stopK, runS, runF, runK, doneS, 
                       doneF, doneK, camRunning, storRunning, camFailed, 
                       storFailed, cam, nappend, stor, monSeen, bad, acc, 
-                      iframe, got, batch, slice, polls, mslice >>
+                      iframe, got, batch, slice, polls, mslice, monitoring >>
 
 FJ == /\ pc["F"] = "FJ"
       /\ IF acc # <<>>
@@ -547,7 +551,7 @@ FJ == /\ pc["F"] = "FJ"
                       mc, stopS, stopF, stopK, runS, runF, runK, doneS, doneF, 
                       doneK, camRunning, storRunning, camFailed, storFailed, 
                       cam, nappend, stor, monSeen, bad, iframe, got, batch, 
-                      slice, polls, mslice >>
+                      slice, polls, mslice, monitoring >>
 
 FK == /\ pc["F"] = "FK"
       /\ runF' = FALSE
@@ -558,7 +562,7 @@ FK == /\ pc["F"] = "FK"
                       mreg, mc, stopS, stopK, runS, runK, doneS, doneK, 
                       camRunning, storRunning, camFailed, storFailed, cam, 
                       nappend, stor, monSeen, bad, acc, iframe, got, batch, 
-                      slice, polls, mslice >>
+                      slice, polls, mslice, monitoring >>
 
 Filter == F0 \/ F1 \/ F2 \/ F3 \/ F4 \/ F5 \/ FF \/ FG \/ FH \/ FI \/ FJ
              \/ FK
@@ -570,7 +574,7 @@ K0 == /\ pc["K"] = "K0"
                       mreg, mc, stopS, stopF, stopK, runS, runF, runK, doneS, 
                       doneF, doneK, camRunning, storRunning, camFailed, 
                       storFailed, cam, nappend, stor, monSeen, bad, acc, 
-                      iframe, got, batch, slice, polls, mslice >>
+                      iframe, got, batch, slice, polls, mslice, monitoring >>
 
 K1 == /\ pc["K"] = "K1"
       /\ IF ~stopK /\ storRunning
@@ -580,7 +584,7 @@ K1 == /\ pc["K"] = "K1"
                       mreg, mc, stopS, stopF, stopK, runS, runF, runK, doneS, 
                       doneF, doneK, camRunning, storRunning, camFailed, 
                       storFailed, cam, nappend, stor, monSeen, bad, acc, 
-                      iframe, got, batch, slice, polls, mslice >>
+                      iframe, got, batch, slice, polls, mslice, monitoring >>
 
 K2 == /\ pc["K"] = "K2"
       /\ \E n \in (IF Len(sq) - sc > 0 THEN 1..(Len(sq) - sc) ELSE {0}):
@@ -590,7 +594,7 @@ K2 == /\ pc["K"] = "K2"
                       mreg, mc, stopS, stopF, stopK, runS, runF, runK, doneS, 
                       doneF, doneK, camRunning, storRunning, camFailed, 
                       storFailed, cam, nappend, stor, monSeen, bad, acc, 
-                      iframe, got, batch, polls, mslice >>
+                      iframe, got, batch, polls, mslice, monitoring >>
 
 K3 == /\ pc["K"] = "K3"
       /\ IF slice > 0
@@ -608,7 +612,8 @@ K3 == /\ pc["K"] = "K3"
       /\ UNCHANGED << epoch, phase, aborted, fq, facc, sq, sacc, sreg, sc, 
                       mreg, mc, stopS, stopF, stopK, runS, runF, runK, doneS, 
                       doneF, doneK, camRunning, camFailed, cam, monSeen, bad, 
-                      acc, iframe, got, batch, slice, polls, mslice >>
+                      acc, iframe, got, batch, slice, polls, mslice, 
+                      monitoring >>
 
 K4 == /\ pc["K"] = "K4"
       /\ LET nsc == sc + slice IN
@@ -621,7 +626,7 @@ K4 == /\ pc["K"] = "K4"
                       stopF, stopK, runS, runF, runK, doneS, doneF, doneK, 
                       camRunning, storRunning, camFailed, storFailed, cam, 
                       nappend, stor, monSeen, bad, acc, iframe, got, batch, 
-                      slice, polls, mslice >>
+                      slice, polls, mslice, monitoring >>
 
 K5 == /\ pc["K"] = "K5"
       /\ TRUE
@@ -630,7 +635,7 @@ K5 == /\ pc["K"] = "K5"
                       mreg, mc, stopS, stopF, stopK, runS, runF, runK, doneS, 
                       doneF, doneK, camRunning, storRunning, camFailed, 
                       storFailed, cam, nappend, stor, monSeen, bad, acc, 
-                      iframe, got, batch, slice, polls, mslice >>
+                      iframe, got, batch, slice, polls, mslice, monitoring >>
 
 KF == /\ pc["K"] = "KF"
       /\ \E n \in (IF Len(sq) - sc > 0 THEN 1..(Len(sq) - sc) ELSE {0}):
@@ -640,7 +645,7 @@ KF == /\ pc["K"] = "KF"
                       mreg, mc, stopS, stopF, stopK, runS, runF, runK, doneS, 
                       doneF, doneK, camRunning, storRunning, camFailed, 
                       storFailed, cam, nappend, stor, monSeen, bad, acc, 
-                      iframe, got, batch, polls, mslice >>
+                      iframe, got, batch, polls, mslice, monitoring >>
 
 KG == /\ pc["K"] = "KG"
       /\ IF slice > 0
@@ -662,7 +667,8 @@ KG == /\ pc["K"] = "KG"
       /\ UNCHANGED << epoch, phase, aborted, fq, facc, sq, sacc, sreg, sc, 
                       mreg, mc, stopS, stopF, stopK, runS, runF, runK, doneS, 
                       doneF, doneK, camRunning, camFailed, cam, monSeen, bad, 
-                      acc, iframe, got, batch, slice, polls, mslice >>
+                      acc, iframe, got, batch, slice, polls, mslice, 
+                      monitoring >>
 
 KH == /\ pc["K"] = "KH"
       /\ LET nsc == sc + slice IN
@@ -675,7 +681,7 @@ KH == /\ pc["K"] = "KH"
                       stopF, stopK, runS, runF, runK, doneS, doneF, doneK, 
                       camRunning, storRunning, camFailed, storFailed, cam, 
                       nappend, stor, monSeen, bad, acc, iframe, got, batch, 
-                      slice, polls, mslice >>
+                      slice, polls, mslice, monitoring >>
 
 KS == /\ pc["K"] = "KS"
       /\ storRunning' = FALSE
@@ -684,7 +690,7 @@ KS == /\ pc["K"] = "KS"
                       mreg, mc, stopS, stopF, stopK, runS, runF, runK, doneS, 
                       doneF, doneK, camRunning, camFailed, storFailed, cam, 
                       nappend, stor, monSeen, bad, acc, iframe, got, batch, 
-                      slice, polls, mslice >>
+                      slice, polls, mslice, monitoring >>
 
 KD == /\ pc["K"] = "KD"
       /\ runK' = FALSE
@@ -695,7 +701,7 @@ KD == /\ pc["K"] = "KD"
                       mreg, mc, stopS, stopF, runS, runF, doneS, doneF, 
                       camRunning, storRunning, camFailed, storFailed, cam, 
                       nappend, stor, monSeen, bad, acc, iframe, got, batch, 
-                      slice, polls, mslice >>
+                      slice, polls, mslice, monitoring >>
 
 KE == /\ pc["K"] = "KE"
       /\ stopS' = TRUE
@@ -704,7 +710,7 @@ KE == /\ pc["K"] = "KE"
                       mreg, mc, stopF, stopK, runS, runF, runK, doneS, doneF, 
                       doneK, camRunning, storRunning, camFailed, storFailed, 
                       cam, nappend, stor, monSeen, bad, acc, iframe, got, 
-                      batch, slice, polls, mslice >>
+                      batch, slice, polls, mslice, monitoring >>
 
 KE1 == /\ pc["K"] = "KE1"
        /\ IF Repaired
@@ -716,7 +722,7 @@ KE1 == /\ pc["K"] = "KE1"
                        stopS, stopF, stopK, runS, runF, runK, doneS, doneF, 
                        doneK, camRunning, storRunning, camFailed, storFailed, 
                        cam, nappend, stor, monSeen, bad, acc, iframe, got, 
-                       batch, slice, polls, mslice >>
+                       batch, slice, polls, mslice, monitoring >>
 
 KE2 == /\ pc["K"] = "KE2"
        /\ storRunning' = FALSE
@@ -725,7 +731,7 @@ KE2 == /\ pc["K"] = "KE2"
                        mreg, mc, stopS, stopF, stopK, runS, runF, runK, doneS, 
                        doneF, doneK, camRunning, camFailed, storFailed, cam, 
                        nappend, stor, monSeen, bad, acc, iframe, got, batch, 
-                       slice, polls, mslice >>
+                       slice, polls, mslice, monitoring >>
 
 KE3 == /\ pc["K"] = "KE3"
        /\ runK' = FALSE
@@ -736,7 +742,7 @@ KE3 == /\ pc["K"] = "KE3"
                        mreg, mc, stopS, stopF, runS, runF, doneS, doneF, 
                        camRunning, storRunning, camFailed, storFailed, cam, 
                        nappend, stor, monSeen, bad, acc, iframe, got, batch, 
-                       slice, polls, mslice >>
+                       slice, polls, mslice, monitoring >>
 
 Sink == K0 \/ K1 \/ K2 \/ K3 \/ K4 \/ K5 \/ KF \/ KG \/ KH \/ KS \/ KD
            \/ KE \/ KE1 \/ KE2 \/ KE3
@@ -765,7 +771,7 @@ C0 == /\ pc["C"] = "C0"
                                  cam, nappend, stor, monSeen >>
       /\ UNCHANGED << phase, fq, facc, sq, mreg, mc, stopS, stopF, runS, runF, 
                       doneS, doneF, camRunning, bad, acc, iframe, got, batch, 
-                      slice, polls, mslice >>
+                      slice, polls, mslice, monitoring >>
 
 C1 == /\ pc["C"] = "C1"
       /\ stopF' = FALSE
@@ -776,23 +782,34 @@ C1 == /\ pc["C"] = "C1"
                       mreg, mc, stopS, stopK, runS, runK, doneS, doneK, 
                       camRunning, storRunning, camFailed, storFailed, cam, 
                       nappend, stor, monSeen, bad, acc, iframe, got, batch, 
-                      slice, polls, mslice >>
+                      slice, polls, mslice, monitoring >>
 
 C2 == /\ pc["C"] = "C2"
       /\ camRunning' = TRUE
       /\ stopS' = FALSE
       /\ runS' = TRUE
       /\ doneS' = FALSE
-      /\ phase' = "running"
-      /\ polls' = 0
-      /\ pc' = [pc EXCEPT !["C"] = "C3"]
-      /\ UNCHANGED << epoch, aborted, fq, facc, sq, sacc, sreg, sc, mreg, mc, 
-                      stopF, stopK, runF, runK, doneF, doneK, storRunning, 
-                      camFailed, storFailed, cam, nappend, stor, monSeen, bad, 
-                      acc, iframe, got, batch, slice, mslice >>
+      /\ pc' = [pc EXCEPT !["C"] = "C2r"]
+      /\ UNCHANGED << epoch, phase, aborted, fq, facc, sq, sacc, sreg, sc, 
+                      mreg, mc, stopF, stopK, runF, runK, doneF, doneK, 
+                      storRunning, camFailed, storFailed, cam, nappend, stor, 
+                      monSeen, bad, acc, iframe, got, batch, slice, polls, 
+                      mslice, monitoring >>
+
+C2r == /\ pc["C"] = "C2r"
+       /\ phase' = "running"
+       /\ polls' = 0
+       /\ \E m \in {TRUE, FALSE}:
+            monitoring' = (WithMonitor /\ m)
+       /\ pc' = [pc EXCEPT !["C"] = "C3"]
+       /\ UNCHANGED << epoch, aborted, fq, facc, sq, sacc, sreg, sc, mreg, mc, 
+                       stopS, stopF, stopK, runS, runF, runK, doneS, doneF, 
+                       doneK, camRunning, storRunning, camFailed, storFailed, 
+                       cam, nappend, stor, monSeen, bad, acc, iframe, got, 
+                       batch, slice, mslice >>
 
 C3 == /\ pc["C"] = "C3"
-      /\ IF WithMonitor /\ (runS \/ runF \/ runK \/ (mreg /\ mc < Len(sq)))
+      /\ IF monitoring /\ (runS \/ runF \/ runK \/ (mreg /\ mc < Len(sq)))
             THEN /\ IF ~mreg
                        THEN /\ mreg' = TRUE
                             /\ mc' = 0
@@ -805,7 +822,7 @@ C3 == /\ pc["C"] = "C3"
                       stopS, stopF, stopK, runS, runF, runK, doneS, doneF, 
                       doneK, camRunning, storRunning, camFailed, storFailed, 
                       cam, nappend, stor, monSeen, bad, acc, iframe, got, 
-                      batch, slice, polls, mslice >>
+                      batch, slice, polls, mslice, monitoring >>
 
 C3m == /\ pc["C"] = "C3m"
        /\ \E n \in (IF Len(sq) - mc > 0 THEN 1..(Len(sq) - mc) ELSE {0}):
@@ -816,7 +833,7 @@ C3m == /\ pc["C"] = "C3m"
                        mreg, mc, stopS, stopF, stopK, runS, runF, runK, doneS, 
                        doneF, doneK, camRunning, storRunning, camFailed, 
                        storFailed, cam, nappend, stor, bad, acc, iframe, got, 
-                       batch, slice, polls >>
+                       batch, slice, polls, monitoring >>
 
 C3u == /\ pc["C"] = "C3u"
        /\ LET nmc == mc + mslice IN
@@ -829,7 +846,7 @@ C3u == /\ pc["C"] = "C3u"
                        stopS, stopF, stopK, runS, runF, runK, doneS, doneF, 
                        doneK, camRunning, storRunning, camFailed, storFailed, 
                        cam, nappend, stor, monSeen, bad, acc, iframe, got, 
-                       batch, slice, polls, mslice >>
+                       batch, slice, polls, mslice, monitoring >>
 
 C4 == /\ pc["C"] = "C4"
       /\ \/ /\ TRUE
@@ -843,7 +860,7 @@ C4 == /\ pc["C"] = "C4"
                       stopF, stopK, runS, runF, runK, doneS, doneF, doneK, 
                       camRunning, storRunning, camFailed, storFailed, cam, 
                       nappend, stor, monSeen, bad, acc, iframe, got, batch, 
-                      slice, polls, mslice >>
+                      slice, polls, mslice, monitoring >>
 
 C4a == /\ pc["C"] = "C4a"
        /\ sacc' = FALSE
@@ -852,17 +869,25 @@ C4a == /\ pc["C"] = "C4a"
                        stopS, stopF, stopK, runS, runF, runK, doneS, doneF, 
                        doneK, camRunning, storRunning, camFailed, storFailed, 
                        cam, nappend, stor, monSeen, bad, acc, iframe, got, 
-                       batch, slice, polls, mslice >>
+                       batch, slice, polls, mslice, monitoring >>
 
 C5 == /\ pc["C"] = "C5"
       /\ phase' = "stopping"
-      /\ doneS
-      /\ pc' = [pc EXCEPT !["C"] = "C6"]
+      /\ pc' = [pc EXCEPT !["C"] = "C5j"]
       /\ UNCHANGED << epoch, aborted, fq, facc, sq, sacc, sreg, sc, mreg, mc, 
                       stopS, stopF, stopK, runS, runF, runK, doneS, doneF, 
                       doneK, camRunning, storRunning, camFailed, storFailed, 
                       cam, nappend, stor, monSeen, bad, acc, iframe, got, 
-                      batch, slice, polls, mslice >>
+                      batch, slice, polls, mslice, monitoring >>
+
+C5j == /\ pc["C"] = "C5j"
+       /\ doneS
+       /\ pc' = [pc EXCEPT !["C"] = "C6"]
+       /\ UNCHANGED << epoch, phase, aborted, fq, facc, sq, sacc, sreg, sc, 
+                       mreg, mc, stopS, stopF, stopK, runS, runF, runK, doneS, 
+                       doneF, doneK, camRunning, storRunning, camFailed, 
+                       storFailed, cam, nappend, stor, monSeen, bad, acc, 
+                       iframe, got, batch, slice, polls, mslice, monitoring >>
 
 C6 == /\ pc["C"] = "C6"
       /\ doneF
@@ -871,7 +896,7 @@ C6 == /\ pc["C"] = "C6"
                       mreg, mc, stopS, stopF, stopK, runS, runF, runK, doneS, 
                       doneF, doneK, camRunning, storRunning, camFailed, 
                       storFailed, cam, nappend, stor, monSeen, bad, acc, 
-                      iframe, got, batch, slice, polls, mslice >>
+                      iframe, got, batch, slice, polls, mslice, monitoring >>
 
 C7 == /\ pc["C"] = "C7"
       /\ doneK
@@ -880,7 +905,7 @@ C7 == /\ pc["C"] = "C7"
                       mreg, mc, stopS, stopF, stopK, runS, runF, runK, doneS, 
                       doneF, doneK, camRunning, storRunning, camFailed, 
                       storFailed, cam, nappend, stor, monSeen, bad, acc, 
-                      iframe, got, batch, slice, polls, mslice >>
+                      iframe, got, batch, slice, polls, mslice, monitoring >>
 
 C8 == /\ pc["C"] = "C8"
       /\ sacc' = TRUE
@@ -904,7 +929,8 @@ C8 == /\ pc["C"] = "C8"
       /\ UNCHANGED << epoch, phase, aborted, facc, stopS, stopF, stopK, runS, 
                       runF, runK, doneS, doneF, doneK, camRunning, storRunning, 
                       camFailed, storFailed, cam, nappend, stor, monSeen, bad, 
-                      acc, iframe, got, batch, slice, polls, mslice >>
+                      acc, iframe, got, batch, slice, polls, mslice, 
+                      monitoring >>
 
 C9 == /\ pc["C"] = "C9"
       /\ phase' = "armed"
@@ -919,7 +945,7 @@ C9 == /\ pc["C"] = "C9"
                       stopS, stopF, stopK, runS, runF, runK, doneS, doneF, 
                       doneK, camRunning, storRunning, camFailed, storFailed, 
                       cam, nappend, stor, monSeen, acc, iframe, got, batch, 
-                      slice, polls, mslice >>
+                      slice, polls, mslice, monitoring >>
 
 CX == /\ pc["C"] = "CX"
       /\ phase' = "done"
@@ -928,10 +954,10 @@ CX == /\ pc["C"] = "CX"
                       stopS, stopF, stopK, runS, runF, runK, doneS, doneF, 
                       doneK, camRunning, storRunning, camFailed, storFailed, 
                       cam, nappend, stor, monSeen, bad, acc, iframe, got, 
-                      batch, slice, polls, mslice >>
+                      batch, slice, polls, mslice, monitoring >>
 
-Client == C0 \/ C1 \/ C2 \/ C3 \/ C3m \/ C3u \/ C4 \/ C4a \/ C5 \/ C6 \/ C7
-             \/ C8 \/ C9 \/ CX
+Client == C0 \/ C1 \/ C2 \/ C2r \/ C3 \/ C3m \/ C3u \/ C4 \/ C4a \/ C5
+             \/ C5j \/ C6 \/ C7 \/ C8 \/ C9 \/ CX
 
 (* Allow infinite stuttering to prevent deadlock on termination. *)
 Terminating == /\ \A self \in ProcSet: pc[self] = "Done"
